@@ -456,7 +456,7 @@ def assert_normalized(
 
             # run func
             this_outs = func(*args_in)
-            if not isinstance(this_outs, list) or isinstance(this_outs, tuple):
+            if not isinstance(this_outs, (list, tuple)):
                 this_outs = (this_outs,)
             assert len(this_outs) == len(irreps_out)
 
